@@ -2,6 +2,7 @@ package main
 
 import (
 	"fmt"
+	"net"
 	"strings"
 	"sync/atomic"
 	"time"
@@ -198,13 +199,18 @@ func (c *Cluster) startInfoSampler(every time.Duration) {
 		defer c.bgWG.Done()
 		tk := time.NewTicker(every)
 		defer tk.Stop()
+		round := 0
 		for {
 			select {
 			case <-c.stopBg:
 				return
 			case <-tk.C:
+				round++
 				for _, n := range c.liveNodes() {
 					n.info(true)
+					if round%6 == 0 {
+						c.remoteInfo(n)
+					}
 				}
 			}
 		}
@@ -232,4 +238,79 @@ func (c *Cluster) startTicker() {
 func (c *Cluster) stopBackground() {
 	close(c.stopBg)
 	c.bgWG.Wait()
+}
+
+// remote status ------------------------------------------------------------------
+
+// remoteInfo asks n for its status through the library's remote client (the
+// wire codec and the server's task path) and compares it with the in-process
+// report taken just before and just after; only if those two agree is the
+// remote one expected to agree as well.
+func (c *Cluster) remoteInfo(n *Node) {
+	a, ok := n.info(false)
+	if !ok {
+		return
+	}
+	cl := raft.VerifNewClient(n.addr, func(network, address string, timeout time.Duration) (net.Conn, error) {
+		return c.net.Dial("client", address, timeout)
+	})
+	r, err := cl.GetInfo()
+	b, ok2 := n.info(false)
+	rec := &ev.Rec{K: "remote-info"}
+	switch {
+	case err != nil:
+		rec.Kind, rec.Err = "error", err.Error()
+	case !ok2 || diffInfo(a, b) != "":
+		rec.Kind = "unstable"
+	default:
+		if d := diffInfo(a, r); d != "" {
+			rec.Kind, rec.Note = "differs", d
+		} else {
+			rec.Kind = "equal"
+			if len(a.Followers) > 0 {
+				rec.Cnt = int64(len(a.Followers))
+			}
+		}
+	}
+	c.rc.emitNode(n.dir, rec)
+}
+
+// diffInfo names the first field in which two status reports differ.
+func diffInfo(a, b raft.Info) string {
+	switch {
+	case a.CID != b.CID || a.NID != b.NID || a.Addr != b.Addr:
+		return fmt.Sprintf("identity %d/%d@%s vs %d/%d@%s", a.CID, a.NID, a.Addr, b.CID, b.NID, b.Addr)
+	case a.Term != b.Term || a.State != b.State || a.Leader != b.Leader:
+		return fmt.Sprintf("term/state/leader %d/%c/%d vs %d/%c/%d", a.Term, a.State, a.Leader, b.Term, b.State, b.Leader)
+	case a.SnapshotIndex != b.SnapshotIndex || a.FirstLogIndex != b.FirstLogIndex || a.LastLogIndex != b.LastLogIndex || a.LastLogTerm != b.LastLogTerm:
+		return fmt.Sprintf("log snapshot=%d first=%d last=%d/%d vs snapshot=%d first=%d last=%d/%d", a.SnapshotIndex, a.FirstLogIndex, a.LastLogIndex, a.LastLogTerm, b.SnapshotIndex, b.FirstLogIndex, b.LastLogIndex, b.LastLogTerm)
+	case a.Committed != b.Committed || a.LastApplied != b.LastApplied:
+		return fmt.Sprintf("committed/applied %d/%d vs %d/%d", a.Committed, a.LastApplied, b.Committed, b.LastApplied)
+	}
+	if x, y := fmt.Sprint(cvConfig(a.Configs.Latest)), fmt.Sprint(cvConfig(b.Configs.Latest)); x != y {
+		return "latest configuration " + x + " vs " + y
+	}
+	if x, y := fmt.Sprint(cvConfig(a.Configs.Committed)), fmt.Sprint(cvConfig(b.Configs.Committed)); x != y {
+		return "committed configuration " + x + " vs " + y
+	}
+	if len(a.Followers) != len(b.Followers) {
+		return fmt.Sprintf("%d followers vs %d", len(a.Followers), len(b.Followers))
+	}
+	for id, fa := range a.Followers {
+		fb, ok := b.Followers[id]
+		if !ok {
+			return fmt.Sprintf("follower %d missing", id)
+		}
+		ua, ub := int64(0), int64(0)
+		if fa.Unreachable != nil {
+			ua = fa.Unreachable.UnixNano()
+		}
+		if fb.Unreachable != nil {
+			ub = fb.Unreachable.UnixNano()
+		}
+		if fa.ID != fb.ID || fa.MatchIndex != fb.MatchIndex || fa.Round != fb.Round || fa.ErrMessage != fb.ErrMessage || ua != ub || (fa.Err == nil) != (fb.Err == nil) {
+			return fmt.Sprintf("follower %d: id=%d match=%d round=%d unreachable=%d err=%q vs id=%d match=%d round=%d unreachable=%d err=%q", id, fa.ID, fa.MatchIndex, fa.Round, ua, fa.ErrMessage, fb.ID, fb.MatchIndex, fb.Round, ub, fb.ErrMessage)
+		}
+	}
+	return ""
 }
